@@ -512,6 +512,7 @@ def main(tier, replay=None):
         chk.broke("implementation harness failed (rc=%s, %d/%d lines)" % (rc, len(iout), len(impl_in)), ierr[-2000:])
         return chk.finish()
     # 5. the model on the same fields, built from the (f, g) the implementation reports
+    dist_ext = {}
     pos = 0
     model_in = []
     for fc in fields:
@@ -530,9 +531,28 @@ def main(tier, replay=None):
         if fc.full:
             model_in.append("field %d %d %d %d" % (fc.p, fc.k, fc.irred, fc.g))
             model_in += [l[2] for l in fc.lines if l[2] is not None]
+    # the extracted model (and the other field classes) run in the background while the oracle tables are computed
+    import threading
+    box = {}
+
+    def run_model():
+        box["m"] = vf.run_lines(drv, "\n".join(model_in) + "\n", timeout=1500)
+    threads = []
+    if drv:
+        threads.append(threading.Thread(target=run_model))
+    threads.append(threading.Thread(target=ext_part, args=(chk, vf.Rng(chk.seed + 77), tier, dist_ext)))
+    for th in threads:
+        th.start()
+    for fc in fields:
+        if fc.ok and fc.q <= 65536:
+            P0 = PF(fc.p, fc.k, fc.irred)
+            fc.pre = (P0, (fc.k == 1 or P0.irreducible()) and P0.order_is_full(P0.elt(fc.g)))
+            fc.tabs = P0.tables(P0.elt(fc.g)) if fc.pre[1] else None
+    for th in threads:
+        th.join()
     mout = None
     if drv:
-        rc, mout, merr = vf.run_lines(drv, "\n".join(model_in) + "\n", timeout=1500)
+        rc, mout, merr = box["m"]
         if rc != 0 or len(mout) != len(model_in):
             chk.broke("model driver failed (rc=%s, %d/%d lines)" % (rc, len(mout), len(model_in)), merr[-2000:])
             mout = None
@@ -589,7 +609,7 @@ def main(tier, replay=None):
             tx = t.index("T")
             itab = [[int(v) for v in part.split()] for part in " ".join(t[tx + 1:]).split("|")]
         if q <= 65536:
-            l2p, p2l, pl1 = P.tables(G)
+            l2p, p2l, pl1 = fc.tabs if getattr(fc, 'tabs', None) else P.tables(G)
             ohash = [hash3(l2p), hash3(p2l), hash3(pl1)]
             nfields_tab += 1
             chk.count(("tables", fname))
@@ -751,8 +771,8 @@ def main(tier, replay=None):
                     chk.fail_input("GFqDom::init/convert", ty, case, want, got, "init(x) is not the element with p-adic value x mod q, or convert is not its inverse")
     if len(chk.broken) > 20:
         chk.broken = chk.broken[:20] + [{"what": "... %d more" % (len(chk.broken) - 20), "detail": ""}]
-    # 7. the other field classes
-    ext_part(chk, rng, tier, dist)
+    # 7. the other field classes (ran in the background)
+    dist.update(dist_ext)
     chk.cov["rule"] = ("every prime power q <= %d (both storage types for small q) + the fields of test-ffarith; per field: constants, "
                        "defining polynomial irreducible (brute force), generator primitive (order via factorisation of q-1), three tables vs oracle and vs model, "
                        "every scalar call form on all elements/pairs (q<=64) or boundary+random operands, every array form with sz in {0,1,2,n}, dotprod, init/convert; "
@@ -1029,5 +1049,6 @@ def ext_part(chk, rng, tier, dist):
                 e = P.add(P.mul(e, X), P.elt(c % P.p))
             t = got.split()
             if len(t) != 2 or t[1] != str(P.num(e)):
-                chk.fail_input("GFqExtFast::init(double)" if gmeta[0] == "fast" else "GFqExt::init(double)", kind, {"field": ctx, "line": line, "coefficients": vs},
+                chk.fail_input("GFqExtFast::init(double)" if gmeta[0] == "fast" else "GFqExt::init(double)",
+                               "d=0" if (kind == "ginit" and not any(vs)) else kind, {"field": ctx, "line": line, "coefficients": vs},
                                P.num(e), got, "decoding of the Kronecker-packed double is not sum (v_i mod p) X^i mod f")
